@@ -18,7 +18,7 @@ class TranslateError(Exception):
 
 
 # ------------------------------------------------------------------------------------------------ tokens
-TOK = re.compile(r"\s+|//[^\n]*|/\*.*?\*/|\"[^\"]*\"|(?P<num>0x[0-9a-fA-F_]+|\d[\d_]*)(?:[iu](?:8|16|32|64|128|size))?|(?P<id>\$?[A-Za-z_][A-Za-z0-9_]*)|(?P<op><<|>>|\.\.|=>|::|->|[-+*/%^|&!=<>.,;:(){}\[\]#?])", re.S)
+TOK = re.compile(r"\s+|//[^\n]*|/\*.*?\*/|\"[^\"]*\"|'[A-Za-z_]\w*|(?P<num>0x[0-9a-fA-F_]+|\d[\d_]*)(?:[iu](?:8|16|32|64|128|size))?|(?P<id>\$?[A-Za-z_][A-Za-z0-9_]*)|(?P<op><<|>>|\.\.|=>|::|->|[-+*/%^|&!=<>.,;:(){}\[\]#?])", re.S)
 
 
 def tokenize(src):
